@@ -8,36 +8,67 @@ import (
 	"verif/mc/sched"
 )
 
-func LoadInt32(p *int32) int32     { sched.Point("atomic.Load"); return atomic.LoadInt32(p) }
-func LoadInt64(p *int64) int64     { sched.Point("atomic.Load"); return atomic.LoadInt64(p) }
-func LoadUint32(p *uint32) uint32  { sched.Point("atomic.Load"); return atomic.LoadUint32(p) }
-func LoadUint64(p *uint64) uint64  { sched.Point("atomic.Load"); return atomic.LoadUint64(p) }
+//go:norace
+func LoadInt32(p *int32) int32 { sched.Point("atomic.Load"); return atomic.LoadInt32(p) }
+
+//go:norace
+func LoadInt64(p *int64) int64 { sched.Point("atomic.Load"); return atomic.LoadInt64(p) }
+
+//go:norace
+func LoadUint32(p *uint32) uint32 { sched.Point("atomic.Load"); return atomic.LoadUint32(p) }
+
+//go:norace
+func LoadUint64(p *uint64) uint64 { sched.Point("atomic.Load"); return atomic.LoadUint64(p) }
+
+//go:norace
 func StoreInt32(p *int32, v int32) { sched.Point("atomic.Store"); atomic.StoreInt32(p, v) }
+
+//go:norace
 func StoreInt64(p *int64, v int64) { sched.Point("atomic.Store"); atomic.StoreInt64(p, v) }
+
+//go:norace
 func StoreUint32(p *uint32, v uint32) {
 	sched.Point("atomic.Store")
 	atomic.StoreUint32(p, v)
 }
+
+//go:norace
 func StoreUint64(p *uint64, v uint64) {
 	sched.Point("atomic.Store")
 	atomic.StoreUint64(p, v)
 }
-func AddInt32(p *int32, d int32) int32     { sched.Point("atomic.Add"); return atomic.AddInt32(p, d) }
-func AddInt64(p *int64, d int64) int64     { sched.Point("atomic.Add"); return atomic.AddInt64(p, d) }
+
+//go:norace
+func AddInt32(p *int32, d int32) int32 { sched.Point("atomic.Add"); return atomic.AddInt32(p, d) }
+
+//go:norace
+func AddInt64(p *int64, d int64) int64 { sched.Point("atomic.Add"); return atomic.AddInt64(p, d) }
+
+//go:norace
 func AddUint32(p *uint32, d uint32) uint32 { sched.Point("atomic.Add"); return atomic.AddUint32(p, d) }
+
+//go:norace
 func AddUint64(p *uint64, d uint64) uint64 { sched.Point("atomic.Add"); return atomic.AddUint64(p, d) }
+
+//go:norace
 func CompareAndSwapInt32(p *int32, o, n int32) bool {
 	sched.Point("atomic.CAS")
 	return atomic.CompareAndSwapInt32(p, o, n)
 }
+
+//go:norace
 func CompareAndSwapInt64(p *int64, o, n int64) bool {
 	sched.Point("atomic.CAS")
 	return atomic.CompareAndSwapInt64(p, o, n)
 }
+
+//go:norace
 func CompareAndSwapUint32(p *uint32, o, n uint32) bool {
 	sched.Point("atomic.CAS")
 	return atomic.CompareAndSwapUint32(p, o, n)
 }
+
+//go:norace
 func CompareAndSwapUint64(p *uint64, o, n uint64) bool {
 	sched.Point("atomic.CAS")
 	return atomic.CompareAndSwapUint64(p, o, n)
